@@ -503,6 +503,9 @@ static void mspec_check(const Json& c, Out& o) {
     for (int k = 0; k < ncomp; ++k) {
         long b = long(k + 1) * b1;
         bool pres = true;
+        // a harmonic exactly ON the Nyquist edge (b == n) is neither inside the range nor beyond it: the library's own test is
+        // (k+1) f0 > 1 on a centroid that is b1/n only to rounding, so either branch may be taken - outside what this oracle decides
+        if (b % n == 0) { o.discard = true; return; }
         if (b >= n) {
             if (!aliased) pres = false;
             else { long f = b % (2L * n); b = f > n ? 2L * n - f : f; }
